@@ -72,33 +72,47 @@ def replay_case(arg):
         for di, dt in enumerate(dts):
             for flag in ((True, False) if dt == "int64" else ((di + ci) % 2 == 0,)):
                 combos.append((cont, dt, flag))
+    # fractional prior: every builder is invariant under a common scaling of counts and prior (T and pi depend on
+    # ratios only), so the emitted result for (C, prior 1) with all-even C is the result for (C/2, prior 1/2) with
+    # the returned counts halved -- replayed in integer and float containers
+    Ceven = np.array(c["C"])
+    if c["prior"] == 1 and not (Ceven % 2).any():
+        for ci, cont in enumerate(containers):
+            combos.append((cont, ("int64", "float64", "int32")[(ci + len(c["C"])) % 3] + "/half", ci % 2 == 0))
     for cont, dt, flag in combos:
         if True:
-            M = make(cont, c["C"], dt)
+            halfprior = dt.endswith("/half")
+            if halfprior:
+                dt = dt[:-5]
+            M = make(cont, (Ceven // 2).tolist() if halfprior else c["C"], dt)
+            Wexp, pr = (W / 2, 0.5) if halfprior else (W, prior)
             before = dense(M).copy()
             btype = type(M)
             rtol = 1e-12 if dt != "float32" else 3e-6
             try:
                 with warnings.catch_warnings():
                     warnings.simplefilter("ignore")
-                    Cout, Tout, eq = fn(M, prior_counts=prior, calculate_eq_probs=flag)
+                    Cout, Tout, eq = fn(M, prior_counts=pr, calculate_eq_probs=flag)
             except Exception as ex:
                 bad.append(("%s/%s/raises-%s" % (c["builder"], "sparse" if cont != "ndarray" else "dense",
                                                 type(ex).__name__),
                             {"container": cont, "flag": flag, "error": "%s: %s" % (type(ex).__name__, ex)}))
                 continue
             where = {"container": cont, "dtype": dt, "calculate_eq_probs": flag}
+            if halfprior:
+                where["prior_counts"] = 0.5
+                where["C"] = (Ceven // 2).tolist()
             # caller's matrix
             if type(M) is not btype or M.dtype != np.dtype(dt) or not np.array_equal(dense(M), before):
                 bad.append((c["builder"] + "/caller-modified", dict(where, now=dense(M).tolist())))
             # containers
-            allowed = {btype} if prior is None or cont == "ndarray" else {btype, np.ndarray}
+            allowed = {btype} if pr is None or cont == "ndarray" else {btype, np.ndarray}
             if type(Tout) not in allowed or type(Cout) not in allowed:
                 bad.append((c["builder"] + "/container", dict(where, got=[type(Cout).__name__, type(Tout).__name__],
                                                               allowed=[t.__name__ for t in allowed])))
             # values
-            if dense(Cout).shape != (n, n) or not np.allclose(dense(Cout), W, rtol=rtol, atol=0):
-                bad.append((c["builder"] + "/counts", dict(where, got=dense(Cout).tolist(), expected=W.tolist())))
+            if dense(Cout).shape != (n, n) or not np.allclose(dense(Cout), Wexp, rtol=rtol, atol=0):
+                bad.append((c["builder"] + "/counts", dict(where, got=dense(Cout).tolist(), expected=Wexp.tolist())))
             if dense(Tout).shape != (n, n) or not np.allclose(dense(Tout), T, rtol=rtol, atol=1e-15):
                 bad.append((c["builder"] + "/tprobs", dict(where, got=dense(Tout).tolist(), expected=T.tolist())))
             if not flag:
